@@ -265,11 +265,13 @@ func (c *c15) genCase(o *OracleEnv, rng *mon.Rand, ts int64) c15Case {
 		}
 		cs.specs = commitVotes(above, noBTC)
 		for _, i := range rest(above) {
-			cs.specs = append(cs.specs, voteSpec{Val: i, Flag: cmtproto.BlockIDFlagCommit, Prices: prices, Sig: mon.Pick(rng, []sigKind{sigForged, sigWrongChain, sigMissing})})
+			// the forged entries' own power fields say the real power, 0 or -1 (a field the submitter controls)
+			cs.specs = append(cs.specs, voteSpec{Val: i, Flag: cmtproto.BlockIDFlagCommit, Prices: prices, Sig: mon.Pick(rng, []sigKind{sigForged, sigWrongChain, sigMissing}),
+				ZeroPower: rng.Chance(33), ClaimedPower: mon.Pick(rng, []int64{0, 0, -1})})
 		}
 		// one more forged entry for a validator that already signed, quoting BTC/USD
 		if len(above) > 0 {
-			cs.specs = append(cs.specs, voteSpec{Val: above[0], Flag: cmtproto.BlockIDFlagCommit, Prices: prices, Sig: sigForged})
+			cs.specs = append(cs.specs, voteSpec{Val: above[0], Flag: cmtproto.BlockIDFlagCommit, Prices: prices, Sig: sigForged, ZeroPower: rng.Bool()})
 		}
 	case "forged-override":
 		// a genuine signed quorum, followed by unsigned entries for the same validators (non-commit flags) carrying
@@ -277,7 +279,7 @@ func (c *c15) genCase(o *OracleEnv, rng *mon.Rand, ts int64) c15Case {
 		cs.specs = commitVotes(above, prices)
 		forged := pricesAt(7, ts+5)
 		for _, i := range above {
-			cs.specs = append(cs.specs, voteSpec{Val: i, Flag: mon.Pick(rng, []cmtproto.BlockIDFlag{cmtproto.BlockIDFlagUnknown, cmtproto.BlockIDFlagAbsent, cmtproto.BlockIDFlagNil}), Prices: forged, Sig: sigMissing})
+			cs.specs = append(cs.specs, voteSpec{Val: i, Flag: mon.Pick(rng, []cmtproto.BlockIDFlag{cmtproto.BlockIDFlagUnknown, cmtproto.BlockIDFlagAbsent, cmtproto.BlockIDFlagNil, cmtproto.BlockIDFlagCommit}), Prices: forged, Sig: sigMissing, ZeroPower: rng.Bool()})
 		}
 	case "garbage-bytes":
 		cs.raw = rng.Bytes(1 + rng.Intn(200))
